@@ -12,6 +12,11 @@ from .simcuda import Monitor, Proxy, SimCuda, SimLauncher, ThreadState, T_NONE, 
 KERNELS = {'wave_assign_gpu': 'assign', 'wave_eval_gpu': 'eval', 'wave_capture_gpu': 'capture', 'ppo_to_ppi_gpu': 'ppo2ppi'}
 
 
+def fitting_dtype(name, vmax):
+    """The requested integer dtype if it can hold vmax, else int64 (a user would not choose a dtype that cannot hold the values)."""
+    return name if vmax <= np.iinfo(name).max else 'int64'
+
+
 def ws_module():
     import kyupy.wave_sim as ws
     for name in list(KERNELS) + ['cuda', '_wave_eval_gpu', 'wave_eval_cpu', 'level_eval_cpu', 'wave_capture_cpu', 'WaveSim', 'WaveSimCuda']:
@@ -164,7 +169,7 @@ class Harness:
         vec = cp['vec']
         n = nl + 3 if cp.get('plus3', True) else nl
         lst = [int(vec[l % len(vec)]) for l in range(n)]
-        return lst if cp.get('dtype', 'list') == 'list' else np.array(lst, dtype=cp['dtype'])
+        return lst if cp.get('dtype', 'list') == 'list' else np.array(lst, dtype=fitting_dtype(cp['dtype'], max(lst)))
 
     def a_ctrl(self):
         ac = self.case.get('actrl')
@@ -176,6 +181,9 @@ class Harness:
         rows = ac['rows']
         for l in range(nl):
             arr[l] = rows[l % len(rows)]
+        dt = ac.get('dtype', 'int32')
+        if dt == 'int64': return arr.astype(np.int64)
+        if dt == 'list': return arr.tolist()      # the table may come as a plain list of rows
         return arr
 
     # ---------------------------------------------------------------- construction / patching
@@ -395,6 +403,7 @@ class Harness:
         mon.prop_id += 1
         self.produced = {}
         sim.s_to_c()
+        if batch.get('s_to_c_twice'): sim.s_to_c()       # idempotent
         if not batch.get('keep_s'): self.write_custom(batch)
         if mon.tag_prod is not None:
             idx = [i for i in range(len(meta.snodes)) if meta.c_locs[meta.ppi_offset + i] >= 0]
@@ -446,6 +455,7 @@ class Harness:
                 ent = [float(x) for x in refmodels.wave_summary(unwrap(sim.c)[a:b, ts_[1] % unwrap(sim.c).shape[1]])['entries'] if x > TMIN]
                 if ent: t = ent[ts_[2] % len(ent)] + float(ts_[3])
         self.capture_time = t
+        if batch.get('capture_first') is not None: sim.c_to_s(time=np.float32(batch['capture_first']))      # an earlier capture is simply overwritten
         if t is None: sim.c_to_s()
         else: sim.c_to_s(time=np.float32(t))
         out = {'time': t, 's': np.array(unwrap(sim.s)).copy(), 'abuf': np.array(unwrap(sim.abuf)).copy(), 'inputs': inputs,
